@@ -462,10 +462,22 @@ Definition obs_eqb (a b : obs) : bool :=
                                                      and not recorded, for the reader it is missing
                                                      and it has to ask again;
      "Whenever the advertised range contains a missing sample, the lowest one is requested"
-                                                  — judged against RECORDED: the lowest number of
-                                                     the range that is not recorded must be requested
-                                                     (a reader that neither records the far part of a
-                                                     GAP nor asks for it again fails this clause). *)
+                                                  — "missing" is what the text says: not received
+                                                     and not DECLARED.  If the range contains such a
+                                                     number, let m1 be the lowest one and m0 <= m1 the
+                                                     lowest number of the range that is not RECORDED:
+                                                     some number of [m0, m1] must be requested (clause
+                                                     [lowest_requested_ok] below).  The reader as it is
+                                                     requests m0 (it forgot the far part of the GAP and
+                                                     asks again); a reader that remembers more of such
+                                                     a GAP requests a later number of [m0, m1], one
+                                                     that remembers all of it requests m1 itself; all
+                                                     of them request the lowest number that is missing
+                                                     for them, and none may skip beyond m1, the lowest
+                                                     number nobody ever received or declared.  Without
+                                                     a cut GAP in the way m0 = m1 and the clause says
+                                                     "m1 is requested" (lowest_requested_exact_when_
+                                                     no_cut, Oracle.v). *)
 Record grange := { g_from : Z; g_until : Z; g_ackbase : Z }.
 
 Record wspec := {
@@ -612,14 +624,39 @@ Definition requested (m : Z) (rs : list reply) : bool :=
                     | NackFrag _ sn _ _ _ _ => sn =? m
                     end) rs.
 
-(* after an effective HEARTBEAT: if its range contains a number that is not RECORDED (a missing
-   sample), the lowest such number is requested *)
+(* does this reply list ask for some sequence number of [lo, hi]?  It scans the numbers the replies
+   name (at most 256 per ACKNACK); the interval itself can be 2^40 numbers wide and is never
+   enumerated. *)
+Definition in_iv (lo hi m : Z) : bool := (lo <=? m) && (m <=? hi).
+Definition requested_in (lo hi : Z) (rs : list reply) : bool :=
+  existsb (fun r => match r with
+                    | AckNack _ _ _ bits _ => existsb (in_iv lo hi) bits
+                    | NackFrag _ sn _ _ _ _ => in_iv lo hi sn
+                    end) rs.
+
+(* after an effective HEARTBEAT(first, last): with x = max first 1,
+     m1 = the lowest number >= x that is not DECLARED (never received, never declared unavailable),
+     m0 = the lowest number >= x that is not RECORDED (m0 <= m1, lemma lowest_unrecorded_le).
+   If m1 <= last — the advertised range contains a missing sample — some number of [m0, m1] must be
+   requested (a set bit of the ACKNACK or the subject of a NACKFRAG of the same reply list).
+   Which one depends on how much of a GAP range that started above the ack base the reader chose to
+   remember: the code as it is (fix c71c7f1) forgets the part beyond ack base + 255 and requests m0;
+   a reader that keeps the whole range (the code before that fix, or an interval set) requests m1;
+   anything in between is a reader with a longer memory than 256.  What is listed must in any case
+   not be RECORDED ([reply_ok]), so a number of [m0, m1) that is requested was declared only in the
+   far part of such a GAP.  For histories without a cut GAP below m1, m0 = m1 and the clause is
+   "m1 is requested".
+   If m1 > last but m0 <= last (everything in the range was declared, but part of it only in the
+   forgotten far part of a GAP) nothing is demanded: the reader as it is requests m0 there (a
+   declared-but-forgotten number, allowed by [reply_ok]), a remembering reader requests nothing;
+   the advertised range contains no missing sample in the sense of the property text, so both are
+   acceptable. *)
 Definition lowest_requested_ok (s : wspec) (o : op) (rs : list reply) : bool :=
   match o with
   | Hb _ first last _ _ =>
-      match lowest_unrecorded s (Z.max first 1) with
-      | Some m0 => if m0 <=? last then requested m0 rs else true
-      | None => false
+      match lowest_unrecorded s (Z.max first 1), lowest_unknown s (Z.max first 1) with
+      | Some m0, Some m1 => if m1 <=? last then requested_in m0 m1 rs else true
+      | _, _ => false                       (* never: lowest_unknown_some *)
       end
   | _ => true
   end.
